@@ -2710,11 +2710,17 @@ where
             while self.idx != self.old_len {
                 let i = self.idx;
                 self.idx += 1;
+                // While the predicate runs, count `v[i]` as removed: if the
+                // predicate panics, the element is leaked and the elements
+                // after it are still shifted over its slot, instead of a
+                // stale copy being left inside the vector.
+                self.del += 1;
                 let v = slice::from_raw_parts_mut(self.vec.as_mut_ptr(), self.old_len);
                 if (self.pred)(&mut v[i]) {
-                    self.del += 1;
                     return Some(ptr::read(&v[i]));
-                } else if self.del > 0 {
+                }
+                self.del -= 1;
+                if self.del > 0 {
                     let del = self.del;
                     let src: *const T = &v[i];
                     let dst: *mut T = &mut v[i - del];
